@@ -516,7 +516,7 @@ def oracle_C05(case: dict, real: dict, model: dict) -> List[str]:
     k = v["k"]
     for m in MODES:
         o = real[m]["out"]
-        if "raised" in o:
+        if "raised" in o and k not in ("lazy", "user"):
             continue
         if k in ("union", "optional"):
             vs = v["vs"] if k == "union" else [v["noneV"], v["inner"]]
@@ -708,3 +708,199 @@ def strip_ids(x: Any) -> Any:
     if isinstance(x, list):
         return [strip_ids(v) for v in x]
     return x
+
+
+# ---------------------------------------------------------------------------------------------
+# C04 record-shaped validators: model-free recomputation from the children's own verdicts
+
+
+def oracle_C04(case: dict, real: dict, model: dict) -> List[str]:
+    out: List[str] = []
+    v = unwrap_user(case["v"])
+    env = case.get("env", [])
+    if v["k"] != "record":
+        return out
+    kind = v["kind"]
+    x = real["xd"]
+    for m in MODES:
+        o = real[m]["out"]
+        if "raised" in o:
+            continue
+        # 1. the input gate, as the statement lists it
+        co = v.get("coerce")
+        if isinstance(co, dict):
+            continue    # custom coercers: the gate is whatever the user function says
+        data = None
+        held_fresh = False
+        if x["t"] == "dict":
+            ok = co is None or kind in ("record", "dictAny")
+            data = x["kvs"]
+        elif x["t"] == "sub" and x["v"]["t"] == "dict":
+            ok = kind == "record"
+            data = x["v"]["kvs"]
+        elif x["t"] == "inst" and kind in ("dataclass", "namedtuple") and norm(x["cls"]) == norm(v["cls"]):
+            ok = True
+            data = [[{"t": "str", "s": [ord(c) for c in n]}, val] for n, val in zip(x["names"], x["vals"])]
+            held_fresh = True
+        else:
+            ok = False
+        if not ok:
+            if "invalid" not in o or o["invalid"]["vid"] != v["vid"] or o["invalid"]["err"]["e"] not in ("type", "coercion"):
+                out.append(f"{m}: input of the wrong shape ({x['t']}) got past the {kind} validator's gate")
+            elif real[m]["trace"] and not all(ev[0] == "uv" for ev in real[m]["trace"]):
+                out.append(f"{m}: gate failure but something was evaluated: {real[m]['trace'][:3]}")
+            continue
+        assert data is not None
+        if "invalid" in o and o["invalid"]["vid"] == v["vid"] and o["invalid"]["err"]["e"] in ("type", "coercion"):
+            out.append(f"{m}: a {x['t']} input was rejected at the {kind} validator's gate")
+            continue
+        child_ids = set()
+        for cv in v["vals"]:
+            child_ids |= subtree_ids(cv, env)
+        # 2. unknown keys, decided before any value is validated
+        declared = v["keys"]
+        unknown = [kk for kk, _ in data if not any(py_eq_desc(kk, dk) for dk in declared)]
+        if v.get("failUnknown") and unknown:
+            if "invalid" not in o or o["invalid"]["err"]["e"] != "extraKeys":
+                out.append(f"{m}: undeclared key present and forbidden, but no extra-keys error")
+            else:
+                if norm({"e": "extraKeys", "ks": o["invalid"]["err"]["ks"]}) != norm({"e": "extraKeys", "ks": declared}):
+                    out.append(f"{m}: extra-keys error does not report the declared key set")
+                evs = [ev for ev in real[m]["trace"] if ev_key(ev) in child_ids]
+                if evs:
+                    out.append(f"{m}: unknown keys must be decided before any value is validated: {evs[:3]}")
+            continue
+        if "invalid" in o and o["invalid"]["err"]["e"] == "extraKeys":
+            out.append(f"{m}: extra-keys error although no undeclared key is present / they are allowed")
+            continue
+        # 3. per declared key
+        exp_err_keys: List[dict] = []
+        exp_children: List[Any] = []
+        payloads: List[Any] = []
+        raised = False
+        for dk, cv, req in zip(declared, v["vals"], v["reqs"]):
+            found = [vv for kk, vv in data if py_eq_desc(kk, dk)]
+            if not found:
+                if req:
+                    exp_err_keys.append(dk)
+                    exp_children.append("missing")
+                payloads.append(None)
+                continue
+            r = run_alone(cv, env, found[0], m)["out"]
+            if "raised" in r:
+                raised = True
+                break
+            if "invalid" in r:
+                exp_err_keys.append(dk)
+                exp_children.append(r["invalid"])
+                payloads.append(None)
+            else:
+                payloads.append(r["valid"])
+        if raised:
+            continue
+        if exp_err_keys:
+            if "invalid" not in o or o["invalid"]["err"]["e"] != "keys":
+                out.append(f"{m}: keys {len(exp_err_keys)} fail (missing / invalid) but the validator did not report key errors")
+                continue
+            inv = o["invalid"]
+            if norm(inv["err"]["ks"]) != norm(exp_err_keys):
+                out.append(f"{m}: key errors for {len(inv['err']['ks'])} keys; exactly {len(exp_err_keys)} keys fail")
+                continue
+            for ch, exp in zip(inv["children"], exp_children):
+                if exp == "missing":
+                    if ch["err"]["e"] != "missingKey" or ch["vid"] != v["vid"]:
+                        out.append(f"{m}: missing required key not reported as MissingKeyErr by this validator")
+                elif norm(ch) != norm(exp):
+                    out.append(f"{m}: a key error is not the child's own Invalid")
+            if any(ev[0] in ("oc", "aoc") for ev in real[m]["trace"] if ev_key(ev) not in child_ids):
+                out.append(f"{m}: whole-object check ran although a key failed")
+            continue
+        if "invalid" in o and o["invalid"]["err"]["e"] == "keys":
+            out.append(f"{m}: key errors reported although every key passes")
+            continue
+        # 4. payload built only from the children's payloads for declared keys
+        exp = expected_record_payload(v, payloads)
+        got = o["valid"] if "valid" in o else (o["invalid"]["value"] if o["invalid"]["err"]["e"] == "custom" else None)
+        if got is None:
+            out.append(f"{m}: all keys pass but the validator reported {o['invalid']['err']['e']}")
+        elif exp is not None and strip_ids(norm(got)) != strip_ids(norm(exp)):
+            out.append(f"{m}: the built object is not constructed from exactly the children's payloads of the declared keys")
+        elif got.get("oid", 0) != 0:
+            out.append(f"{m}: the payload is not a newly built object")
+    return out
+
+
+def expected_record_payload(v: dict, payloads: List[Any]) -> Optional[dict]:
+    kind = v["kind"]
+    if kind in ("dictAny", "typeddict"):
+        return {"t": "dict", "oid": 0, "kvs": [[k, p] for k, p in zip(v["keys"], payloads) if p is not None]}
+    if kind in ("dataclass", "namedtuple"):
+        vals = []
+        for p, d in zip(payloads, v["defaults"]):
+            vals.append(p if p is not None else d)
+        if any(x is None for x in vals):
+            return None
+        return {"t": "inst", "oid": 0, "doid": 0, "cls": v["cls"], "names": list(v["fieldNames"]), "vals": vals}
+    args = [p if p is not None else {"t": "nothing"} for p in payloads]
+    f = v["into"]["f"]
+    if f == "tupleOf":
+        return {"t": "tuple", "oid": 0, "xs": args}
+    if f == "listOf":
+        return {"t": "list", "oid": 0, "xs": args}
+    ctx = wire.Ctx()
+    d: Dict[Any, Any] = {}
+    for k, a in zip(v["into"]["keys"], args):
+        d[wire.mk_value(ctx, k)] = wire.mk_value(ctx, a)
+    return wire.canon_value(ctx, d)
+
+
+# ---------------------------------------------------------------------------------------------
+# C02 scalar pipeline: the proved model is the specification of the determined fields; on top of
+# that, model-free invariants of the real result and of the callback log
+
+
+def oracle_C02(case: dict, real: dict, model: dict) -> List[str]:
+    out: List[str] = []
+    v = unwrap_user(case["v"])
+    if v["k"] not in ("scalar", "equals", "none"):
+        return out
+    x = real["xd"]
+    for m in MODES:
+        o = real[m]["out"]
+        mo = model[m].get("out")
+        if mo is not None and norm(o) != norm(mo):
+            out.append(f"{m}: result differs from the specification (proved model): {engine.outcome_class(real[m])} vs "
+                       f"{engine.outcome_class(model[m])}")
+        if "raised" in o:
+            continue
+        if v["k"] != "scalar":
+            continue
+        preds = v.get("preds") or []
+        apreds = (v.get("apreds") or []) if m == "async" else []
+        order = [p["pid"] for p in preds] + [p["pid"] for p in apreds]
+        if "invalid" in o:
+            inv = o["invalid"]
+            e = inv["err"]["e"]
+            if e in ("type", "coercion"):
+                if norm(inv["value"]) != norm(x):
+                    out.append(f"{m}: {e} error does not carry the original value")
+                if any(ev[0] in ("pred", "apred", "proc") for ev in real[m]["trace"]):
+                    out.append(f"{m}: predicates / processors ran although the gate failed")
+                continue
+            if e != "preds":
+                out.append(f"{m}: scalar validator reported {e}")
+                continue
+            pids = inv["err"]["pids"]
+            pos = [order.index(p) for p in pids if p in order]
+            if len(pos) != len(pids) or pos != sorted(pos) or len(set(pos)) != len(pos):
+                out.append(f"{m}: failing predicates {pids} are not listed in declaration order (sync before async)")
+        # reached the predicate stage: every user predicate was evaluated exactly once, none skipped
+        n_user = sum(1 for p in preds if p["k"] == "user")
+        seen = [ev for ev in real[m]["trace"] if ev[0] == "pred"]
+        if len(seen) != n_user:
+            out.append(f"{m}: {len(seen)} sync predicate calls for {n_user} configured predicates")
+        if m == "async":
+            seen_a = [ev[1] for ev in real[m]["trace"] if ev[0] == "apred"]
+            if seen_a != [p["pid"] for p in apreds]:
+                out.append(f"{m}: async predicates awaited {seen_a}, configured {[p['pid'] for p in apreds]}")
+    return out
